@@ -53,7 +53,18 @@ TMInit    == Is("MInit") /\ MInit(Ev.m, Ev.merge # 0, Ev.failtok, Ev.dupsort # 0
 TMAdd     == Is("MAdd") /\ MAdd(Ev.m, Ev.src)
 TMDestroy == Is("MDestroy") /\ MDestroy(Ev.m)
 
-TOpen     == Is("Open") /\ Open(Ev.i, Ev.src, Bound(Ev.kind, IF Has("k0") THEN Ev.k0 ELSE <<>>, IF Has("k1") THEN Ev.k1 ELSE <<>>), Ev.null)
+TBound    == Bound(Ev.kind, IF Has("k0") THEN Ev.k0 ELSE <<>>, IF Has("k1") THEN Ev.k1 ELSE <<>>)
+TFsOpen   == Is("Open") /\ Ev.src.t = "f" /\ FsOpen(Ev.i, Ev.src.n, TBound, Ev.null)
+TFsClose  == Is("Close") /\ Intact /\ FsClose(Ev.i)
+TClock    == Is("Clock") /\ ClockSet(Ev.t)
+TSetFile  == Is("SetFile") /\ SetFileWrite(Ev.path, Ev.mtime, Ev.abs, Ev.bcs)
+THOpts(set) == HOpts(set, Ev.interval, Ev.merge # 0, Ev.dupsort # 0, Ev.fnfilter, Ev.rdfilter)
+TFsInit   == Is("FsInit") /\ FsInit(Ev.f, Ev.setfile, THOpts(Ev.setfile))
+TFsDup    == Is("FsDup") /\ Ev.orig \in DOMAIN fs.h /\ FsDup(Ev.f, Ev.orig, THOpts(fs.h[Ev.orig].set))
+TFsReload == Is("FsReload") /\ FsReload(Ev.f)
+TFsReloadNow == Is("FsReloadNow") /\ FsReloadNow(Ev.f)
+TFsDestroy == Is("FsDestroy") /\ FsDestroy(Ev.f)
+TOpen     == Is("Open") /\ Ev.src.t # "f" /\ Open(Ev.i, Ev.src, Bound(Ev.kind, IF Has("k0") THEN Ev.k0 ELSE <<>>, IF Has("k1") THEN Ev.k1 ELSE <<>>), Ev.null)
 TSeek     == Is("Seek") /\ Intact /\ Seek(Ev.i, Ev.k)
 TNext     == Is("Next") /\ Intact          \* buffers handed out stayed intact until this call
                         /\ (IF Ev.ok THEN NextHit(Ev.i, Ev.k, Ev.v, IF Has("calls") THEN Ev.calls ELSE <<>>) ELSE NextMiss(Ev.i))
@@ -72,6 +83,7 @@ TNext0 == \/ TReset \/ TJudge \/ TIgnore \/ TInfo \/ TDump \/ TFileStruct \/ TFi
           \/ TWInit \/ TWAdd \/ TWClose \/ TROpen \/ TRDestroy \/ TRMeta
           \/ TUInit \/ TUAdd \/ TUDestroy \/ TMInit \/ TMAdd \/ TMDestroy
           \/ TOpen \/ TSeek \/ TNext \/ TClose \/ TSrcWrite
+          \/ TFsOpen \/ TFsClose \/ TClock \/ TSetFile \/ TFsInit \/ TFsDup \/ TFsReload \/ TFsReloadNow \/ TFsDestroy
           \/ TSInit \/ TSAdd \/ TSIter \/ TSWrite \/ TSDestroy \/ TObs
 
 TSpec == TInit /\ [][TNext0]_tvars
